@@ -3,7 +3,7 @@
    correspondence check performs exactly these projections on every observed trace (python:
    sched.event_tokens and world.world_line), so a trace accepted by the check is a [jitem] list
    whose two projections are accepted.  Definitions only. *)
-From N2 Require Import Model.All Proofs.SchedSpec.
+From N2 Require Import Model.All Proofs.SchedSpec Proofs.DbSpec Proofs.WorldSpec.
 
 Inductive jitem :=
 | JUpdate (c : counts6)
@@ -93,3 +93,16 @@ Definition jaccepted (cf : config) (wg : wgraph) (r0 : rstate) (w0 : wstate) (tr
 (* the code the World replay compares a verdict event with (appended for the joint theorems) *)
 Definition dr_code (r : dirty_result) : N :=
   match r with DClean => 0 | DDirty _ => 1 | DError _ => 2 end%N.
+
+(* the completion records one Work appends to the log, read off its trace: every [JRecord b h]
+   item is one [write_build] of step b's outputs, the dependency list kept for b, and the hash h.
+   (A step is recorded at most once per Work, so the dependency list kept for b when the Work
+   ends - [disc_of w b] for the final World state [w] - is the one that was written.)
+   Appended for the null-build theorems C03_null_build_invocation*. *)
+Definition rec_item (j : jitem) : list (nat * N) :=
+  match j with JRecord b h => [(b, h)] | _ => [] end.
+Definition trace_records (tr : list jitem) : list (nat * N) := flat_map rec_item tr.
+Definition rec_of (wg : wgraph) (w : wstate) (p : nat * N) : wr :=
+  wr_of (get_wbuild wg (fst p)) (disc_of w (fst p)) (snd p).
+Definition work_records (wg : wgraph) (w : wstate) (tr : list jitem) : list wr :=
+  map (rec_of wg w) (trace_records tr).
